@@ -480,7 +480,7 @@ def r_index_validation(cx):
         # roll / unroll (m, n): stack_roll turns a negative n into m + n and casts to usize - the constructor therefore
         # bounds the *magnitude* of n by m (a comparison of m with |n|), and tests both for integrality
         for key in ("roll", "unroll"):
-            mags, fracts = [], 0
+            mags, fracts, m_abs = [], 0, []
             for bb in sorted(g.reachable()):
                 t = g.term(bb)
                 if t["k"] != "switch":
@@ -495,9 +495,22 @@ def r_index_validation(cx):
                     continue
                 if c[1] in ("Le", "Lt", "Ge", "Gt") and all(_mentions_call(sd, ("series",)) for sd in sides):
                     mags.append((bb, any(_mentions_call(sd, ("abs", "unsigned_abs")) for sd in sides)))
+                    # m (element 0) enters with its sign - a negative sub-stack size must fail the comparison
+                    for sd in sides:
+                        for a in _mentions_call(sd, ("abs", "unsigned_abs")):
+                            inner = []
+                            mir.walk(a, lambda y: (inner.append(y[2][1]) if y[0] == "proj" and isinstance(y[2], tuple) and
+                                                   y[2][0] == "elem" and len(y[2]) == 2 else None) or True)
+                            if 0 in inner:
+                                m_abs.append(bb)
                 if c[1] in ("Ne", "Eq") and any(_mentions_call(sd, ("fract", "trunc", "round", "floor")) for sd in sides):
                     fracts += 1
             n += 1
+            cx.ob("R-INDEX-VALIDATION", "stack/%s/m-signed" % key, not m_abs,
+                  "stack::new compares the signed m with |n| for `%s=m,n`: a negative sub-stack size is refused" % key if not m_abs else
+                  "stack::new, `%s=m,n`: the magnitude of m is compared with |n|, so a negative sub-stack size is accepted - "
+                  "the apply functions use the signed m, m - n wraps and the rotation loop does not end" % key,
+                  cx.where(g.term(m_abs[0])["span"]) if m_abs else cx.where(g.d["span"]))
             ok = bool(mags) and all(a for _, a in mags) and fracts >= 2
             why = "no comparison of m with n" if not mags else (
                 "the comparison of m with n uses the signed n (any negative n passes; m + n then wraps to a huge count "
